@@ -127,9 +127,20 @@ def zround_(x):
     return zround(x)
 
 
+def _obs_facts(sv, lst, pl):
+    """every created observation is an object whose pipeline exists (the loop looks pipelines[name] up: KeyError otherwise)
+    and whose array demand is the configured (non-negative) one"""
+    H = lambda f, o: z3.Select(sv.heap('Observation', f), o)
+    return Q([('o', I)], lambda o: z3.Implies(lst.count(o) > 0, z3.And(
+        o > 0, z3.Select(pl.keys, H('name', o)), z3.Select(pl.vals, H('name', o)) > 0, H('demand', o) >= 0)))
+
+
 def instr_inv(c):
     n = c.n
-    return [('one-observation-per-entry', n['observations'].n == c.x['visited'].n),
+    return [('every-observation-created-has-a-pipeline', _obs_facts(n, n['observations'], n['pipelines'])),
+            ('pipelines-is-the-configured-map', z3.And(n['pipelines'].keys == c.o.self.instrument['telescope']['pipelines'].keys,
+                                                      n['pipelines'].vals == c.o.self.instrument['telescope']['pipelines'].vals)),
+            ('one-observation-per-entry', n['observations'].n == c.x['visited'].n),
             ('multiplier-fixed', n['timestep_multiplier'].num == mult(n.self.timestep_unit.t)),
             ('multiplier-nonzero', n['timestep_multiplier'].num != 0)]
 
@@ -142,10 +153,15 @@ REG.contract('Config.parse_instrument_config', world=config_world, params={}, fi
         'durations-are-whole-multiples-of-the-unit', Q([('o', I)], lambda o: z3.Implies(
             c.o.self.instrument['telescope']['observations'].count(o) > 0, z3.And(
                 z3.Select(c.o.heap('ObsSpec', 'duration'), o) >= 0,
-                z3.IsInt(z3.Select(c.o.heap('ObsSpec', 'duration'), o) / mult(unit(c)))))))],
+                z3.IsInt(z3.Select(c.o.heap('ObsSpec', 'duration'), o) / mult(unit(c))))))),
+        ('assume:configured-array-demands-nonnegative', Q([('o', I)], lambda o: z3.Implies(
+            c.o.self.instrument['telescope']['observations'].count(o) > 0, z3.Select(c.o.heap('ObsSpec', 'instrument_demand'), o) >= 0)))],
     ensures=lambda c: [('C16-total-arrays-unscaled', c.result[0].t == c.o.self.instrument['telescope']['total_arrays'].t),
                        ('C16-max-ingest-unscaled', c.result[3].t == c.o.self.instrument['telescope']['max_ingest_resources'].t),
-                       ('one-observation-per-entry', c.result[2].n == c.o.self.instrument['telescope']['observations'].n)],
+                       ('one-observation-per-entry', c.result[2].n == c.o.self.instrument['telescope']['observations'].n),
+                       ('C08-every-observation-has-a-pipeline', _obs_facts(c.n, c.result[2], c.result[1])),
+                       ('pipelines-returned-as-configured', z3.And(c.result[1].keys == c.o.self.instrument['telescope']['pipelines'].keys,
+                                                                  c.result[1].vals == c.o.self.instrument['telescope']['pipelines'].vals))],
     raises={'KeyError': dict(when=None, unchanged=False)},
     modifies=['heap:Observation.' + f for f in OBS_FIELDS],
     result='tuple:num,dict:str->ref:PipelineSpec,list:Observation,num',
